@@ -39,7 +39,9 @@ pub struct NumberLoop { pub inclusive: bool, pub val_start: Value, pub val_end: 
 pub open spec fn from_layout(out: Seq<CompiledItem>, a: int, pre: int, b0: int, st: int, body: Seq<CompiledItem>, l: int, e: int, inclusive: bool, collision: bool, has_step: bool) -> bool {
     let q = pre + 3;
     &&& 0 <= a && a + 2 <= pre && 0 <= b0 && 1 <= st && body.len() == b0
-    &&& is_instr(out[a], STORE_FAST) && nargs(out[a]) == 1 && argn(out[a], 0) == l                        // counter stored (after the start value's code) before the condition
+    // counter stored (after the start value's code) before the condition: into the EXISTING variable when the counter re-uses a name
+    // (`store` writes the visible variable's own cell), into a fresh local of the innermost frame otherwise
+    &&& is_instr(out[a], if collision { STORE } else { STORE_FAST }) && nargs(out[a]) == 1 && argn(out[a], 0) == l
     &&& out.len() == q + 1 + b0 + st + 1 + (if collision { 0int } else { 1int })
     &&& is_instr(out[pre - 1], STORE_FAST) && nargs(out[pre - 1]) == 1 && argn(out[pre - 1], 0) == e      // bound stored before the condition
     &&& is_instr(out[pre], LOAD_FAST) && nargs(out[pre]) == 1 && argn(out[pre], 0) == l
@@ -147,7 +149,7 @@ def build(repo):
     t = translate(f["body"], rules, log, "NumberLoop::compile")
     check_closed(t, "NumberLoop::compile")
     gen = header(log, f"{FILE}: NumberLoop::compile") + prelude("compile.rs") + \
-        opcode_consts(ids, ["while_loop", "jmp_pop", "store_fast", "load_fast", "bin_op", "bin_op_assign", "delete_name_scoped", "make_int"]) + SPEC + f"""
+        opcode_consts(ids, ["while_loop", "jmp_pop", "store", "store_fast", "load_fast", "bin_op", "bin_op_assign", "delete_name_scoped", "make_int"]) + SPEC + f"""
 impl NumberLoop {{
     //@ OBL C01.from.layout
     #[verifier::loop_isolation(false)]
